@@ -200,24 +200,31 @@ Theorem c15_offsets_are_lines_before : forall off pre ch post,
 Proof. exact offsets_are_lines_before. Qed.
 Print Assumptions c15_offsets_are_lines_before.
 
-(** `eval` line numbers.  Full statement [Modes.eval_lineno_stmt] (positions inside eval'ed text
-    count from the line L of the `eval` word, as in bash) is refuted by the model of the unchanged
-    code; it holds outside the known class L > 1 (finding KF-C15-eval-lineno-base). *)
-Theorem c15_eval_lineno_refuted :
-  ~ eval_lineno_stmt (list nat) nat unit t_exec (fun _ _ st => st) t_parse t_keq (fun _ s => s) (fun s => firstn 64 s).
-Proof. exact eval_lineno_refuted. Qed.
-Print Assumptions c15_eval_lineno_refuted.
-
-Theorem c15_eval_lineno_outside_known :
+(** `eval` line numbers (finding KF-C15-eval-lineno-base, fixed by e4871cd): positions inside
+    eval'ed text count from the line L of the `eval` word, as in bash, for every L >= 1 and every
+    frame base; hence the same for every delivery mode. *)
+Theorem c15_eval_lineno :
   forall (St cmd opts : Type) (exec : cmd -> nat -> St -> St * flow) (parse_error : str -> nat -> St -> St)
     (parse : opts -> str -> option (list cmd)) (K_eqb : str * opts -> str * opts -> bool)
     (on_hit : str * opts -> list (str * opts * option (list cmd)) -> list (str * opts * option (list cmd)))
     (on_insert : list (str * opts * option (list cmd)) -> list (str * opts * option (list cmd)))
-    (h : list (str * opts)) (o : opts) (text : str) (base L : nat) (st : St), ~ (1 < L)%nat ->
-  eval_builtin St cmd opts exec parse_error parse K_eqb on_hit on_insert h o text base st =
+    (h : list (str * opts)) (o : opts) (text : str) (base L : nat) (st : St), (1 <= L)%nat ->
+  eval_builtin St cmd opts exec parse_error parse K_eqb on_hit on_insert h o text base L st =
   eval_builtin_bash St cmd opts exec parse_error parse K_eqb on_hit on_insert h o text base L st.
-Proof. exact eval_lineno_outside_known. Qed.
-Print Assumptions c15_eval_lineno_outside_known.
+Proof. exact eval_lineno. Qed.
+Print Assumptions c15_eval_lineno.
+
+(** Regression example: eval'ed from line 3 the text reports 3 (and 3, 4 for two lines); on standard
+    input with frame offset 2 and `eval` on the second line of its chunk it reports 4. *)
+Theorem c15_eval_lineno_regression :
+  fst (eval_builtin (list nat) nat unit t_exec (fun _ _ st => st) t_parse t_keq (fun _ s => s) (fun s => firstn 64 s)
+         [] tt [101; 10]%N 0 3 []) = [3]%nat /\
+  fst (eval_builtin (list nat) nat unit t_exec (fun _ _ st => st) t_parse t_keq (fun _ s => s) (fun s => firstn 64 s)
+         [] tt [101; 10; 102; 10]%N 0 3 []) = [3; 4]%nat /\
+  fst (eval_builtin (list nat) nat unit t_exec (fun _ _ st => st) t_parse t_keq (fun _ s => s) (fun s => firstn 64 s)
+         [] tt [101; 10]%N 2 2 []) = [4]%nat.
+Proof. exact eval_lineno_regression. Qed.
+Print Assumptions c15_eval_lineno_regression.
 
 (** The completeness decision is right on the lexical fragment (word characters, blanks,
     newlines, quotes, backslashes, `#`): with the tokenizer's quoting state machine as the
